@@ -135,6 +135,25 @@ claim("C06", "proof",
       "Coq proof (Coquelicot chain rule per opcode, induction over tapes) + extraction-based kernel correspondence",
       "DESIGN.md section 6, C06")
 
+claim("C18", "proof",
+      "Translator + Coq theorems: translate/gen_stdlib.py re-states every straight-line function of stdlib_impl.cpp (csg, shapes, "
+      "transforms: 56 functions incl. the vector operator overloads) as a Coq function over a term language on every run "
+      "(Gen/Stdlib_gen.v); theorems about those generated definitions, over the reals, for parameters given as arbitrary "
+      "position-independent terms: construction through the Tree constructors denotes the term (build_denote); union / "
+      "intersection / difference / inverse are set operations on inside-ness and outside-ness; move, reflect, symmetric, scale, "
+      "rotate carry the solid by the documented point map (rotations are isometries fixing the centre); sphere, circle, "
+      "rectangle, boxes, extrusion, cylinder, cone, torus, half-space are negative exactly on their documented open sets; "
+      "sphere and box_exact return the signed Euclidean distance (closest-point characterisation, inside and outside).  Tie: "
+      "the DAG the C++ functions (and the C entry points of libfive_stdlib.h) build equals, node for node modulo sharing, the DAG "
+      "the generated model builds through Tree/Build.v, for random compositions with constant and free-variable parameters; "
+      "values against the model's reference denotation.  Oracle: an independent Python statement of the documentation "
+      "(documented sets, forward point maps inverted numerically, closest-point distances) against the implementation's "
+      "evaluation at points away from the boundary.",
+      "Trusted: Coq kernel + classical real axioms; translate/gen_stdlib.py; extraction; harness; the documented-set oracle; the sense "
+      "of rotation about each axis is taken from the library's behaviour (the header does not state it).",
+      "source-to-Coq translation + Coq proof (real analysis, nra) + DAG-exact correspondence",
+      "DESIGN.md section 6, C18")
+
 claim("C19", "proof",
       "Coq theorems: the descending-dimension search of solveBounded returns a position inside the box whenever the corner "
       "candidates have comparable errors (bounds merely ordered), returns a pinned candidate when a face candidate is "
